@@ -1,3 +1,5 @@
+import CffiVerif.Generated.ClosureSteps
+
 /-
 Model of the closure allocator of `src/c/malloc_closure.h`
 (`more_core`, `cffi_closure_alloc`, `cffi_closure_free`) as used by
@@ -82,5 +84,48 @@ def step (s : State) : Op → State × Out
 def run (s : State) : List Op → State
   | [] => s
   | op :: rest => run (step s op).1 rest
+
+/-! ### The statements of the source, executed on the list view of the free list
+(`Generated/ClosureSteps.lean` holds the statement lists extracted from malloc_closure.h). -/
+open CffiVerif.Generated.ClosureSteps in
+/-- Registers of the C code: the list headed by `free_list`, the local `item`, and `item->next` as last assigned. -/
+structure Regs where
+  free : List Addr
+  item : Option Addr
+  link : List Addr
+  ret : Option (Option Addr)     -- `some none` = returned NULL, `some (some a)` = returned block `a`
+
+open CffiVerif.Generated.ClosureSteps in
+/-- One statement that neither loops nor calls (`growIfEmpty` is handled by `execAlloc`). -/
+def execStmt (r : Regs) : Stmt → Regs
+  | .linkToHead => { r with link := r.free }                        -- item->next = free_list
+  | .setHead => match r.item with                                   -- free_list = item
+    | some a => { r with free := a :: r.link }
+    | none => r
+  | .nextBlock => r                                                 -- ++item (the caller supplies the next block)
+  | .growIfEmpty => r
+  | .nullIfEmpty => if r.free.isEmpty ∧ r.ret.isNone then { r with ret := some none } else r
+  | .takeHead => { r with item := r.free.head?, link := r.free.tail }   -- item = free_list (its `next` is the tail)
+  | .dropHead => { r with free := r.link }                          -- free_list = item->next
+  | .retItem => if r.ret.isNone then { r with ret := some r.item } else r
+
+open CffiVerif.Generated.ClosureSteps in
+/-- `more_core`'s loop: its body once per new block, in address order. -/
+def execLoop (body : List Stmt) (batch : List Addr) (fl : List Addr) : List Addr :=
+  batch.foldl (fun fl b => (body.foldl execStmt { free := fl, item := some b, link := [], ret := none }).free) fl
+
+open CffiVerif.Generated.ClosureSteps in
+/-- `cffi_closure_free(p)` as its statement list. -/
+def execFree (stmts : List Stmt) (fl : List Addr) (p : Addr) : List Addr :=
+  (stmts.foldl execStmt { free := fl, item := some p, link := [], ret := none }).free
+
+open CffiVerif.Generated.ClosureSteps in
+/-- `cffi_closure_alloc()` as its statement list (statements after a `return` have no effect). -/
+def execAlloc (stmts loop : List Stmt) (batch : List Addr) (fl : List Addr) : Option Addr × List Addr :=
+  let r := stmts.foldl (fun (r : Regs) (st : Stmt) =>
+      if r.ret.isSome then r
+      else if st = .growIfEmpty then (if r.free.isEmpty then { r with free := execLoop loop batch r.free } else r)
+      else execStmt r st) { free := fl, item := none, link := [], ret := none }
+  (r.ret.join, if r.ret = some none then fl else r.free)
 
 end CffiVerif.Closures
